@@ -58,7 +58,7 @@ func runC03(c *engine.Ctx) {
 	r5 := c.Rule("R5", "status table: full/partial from the missing-link record; nil -> finish; first-block-load -> content-not-found, produced exactly when nothing was traversed and the traversal was skipped", 2)
 	r6 := c.Rule("R6", "extension wiring: (name, decoder, setter) triples; dedup key applied before the ignore list", 3)
 	r7 := c.Rule("R7", "every load is followed by the send step for the same link and data", 1)
-	r8 := c.Rule("R8", "a response retired without a final message releases its link tracking first (C19.R7)", 2)
+	r8 := c.Rule("R8", "a response retired without a final message releases its link tracking first (C19.R7)", 1)
 	checkClearBeforeTerminate(c, r8)
 
 	ra := "responsemanager/responseassembler"
@@ -143,6 +143,22 @@ func runC03(c *engine.Ctx) {
 	// R5 status table
 	setup := c.P.Func(ra, "responseBuilder", "setupFinishOperation")
 	if setup == nil {
+		// the helper was folded into its caller: the function that asks the link tracker whether the request was complete
+		for _, f := range c.P.FuncsIn(ra) {
+			for _, ci := range engine.Calls(f) {
+				if ci.Static != nil && ci.Static.Name() == "FinishTracking" && ci.Value() != nil {
+					if refs := ci.Value().Referrers(); refs != nil && len(*refs) > 0 && setup == nil {
+						for _, r := range *refs {
+							if _, isIf := r.(*ssa.If); isIf {
+								setup = f
+							}
+						}
+					}
+				}
+			}
+		}
+	}
+	if setup == nil {
 		c.AnchorMissing(r5, "responseBuilder.setupFinishOperation")
 	} else {
 		c.Analysed(engine.FuncName(setup))
@@ -184,6 +200,7 @@ func runC03(c *engine.Ctx) {
 		// closing transaction: switch err
 		for _, f := range c.P.FuncsIn(qe) {
 			var finish, notFound *ssa.Call
+			var notFoundConds []engine.Cond
 			for _, ci := range engine.Calls(f) {
 				if !ci.Common.IsInvoke() {
 					continue
@@ -192,8 +209,14 @@ func runC03(c *engine.Ctx) {
 				case "FinishRequest":
 					finish = ci.Value()
 				case "FinishWithError":
-					if isConstNamed(c, ci.Common.Args[0], "RequestFailedContentNotFound") {
-						notFound = ci.Value()
+					// the status may be chosen into a variable first: look at each way the argument comes about
+					if call := ci.Value(); call != nil {
+						for _, o := range engine.ValueOutcomes(engine.LocalValue(ci.Common.Args[0]), call.Block()) {
+							if isConstNamed(c, o.V, "RequestFailedContentNotFound") {
+								notFound = call
+								notFoundConds = append(notFoundConds, o.Conds...)
+							}
+						}
 					}
 				}
 			}
@@ -212,7 +235,7 @@ func runC03(c *engine.Ctx) {
 			c.Decide(r5, engine.FuncName(f)+"|nil=>finish", f.Pos(), okN, "a traversal that ended without error finishes the request normally", "FinishRequest is not tied to the traversal ending without error")
 			okF := false
 			if notFound != nil {
-				for _, cd := range engine.InstrConds(notFound) {
+				for _, cd := range append(engine.InstrConds(notFound), notFoundConds...) {
 					if eq, ok := cd.AsEq(); ok && eq.Equal {
 						if isErrFirst(eq.X) || isErrFirst(eq.Y) {
 							okF = true
